@@ -125,6 +125,18 @@ def rule_y3(chk: Check, ix: Index):
     flag_ok = "line_from_token = start is None and end is None" in src
     chk.require(tok_branch and flag_ok, "Y3-text-provenance", "_build_syntax_error:token-line", f.where,
                 "when no explicit span is given the text must be the line of the very token whose start is reported")
+    # raise sites give both positions, so that the text comes from the line store (a fabricated end-of-input token has no line)
+    for q2, g in sorted(ix.funcs.items()):
+        if g.cls != "Parser":
+            continue
+        for c in own_nodes(g.node):
+            if isinstance(c, ast.Call) and norm_stmt(c.func) == "self._build_syntax_error":
+                chk.count("Y3-text-provenance")
+                n_pos = len(c.args) + sum(1 for k in c.keywords if k.arg in ("start", "end"))
+                chk.require(n_pos >= 3 or g.node.name == "make_syntax_error", "Y3-text-provenance",
+                            f"{q2}:{norm_stmt(c)[:50]}", f"{g.rel}:{c.lineno}",
+                            "the error is built without a start and an end: its text is then the diagnosed token's own `line`, which is "
+                            "empty for the NEWLINE fabricated at the end of input (`if x` without a final newline reports text '')")
     chk.count("Y3-text-provenance")
     rng = [n for n in ast.walk(f.node) if isinstance(n, ast.Call) and norm_stmt(n.func) == "range"]
     ok = len(rng) == 1 and [norm_stmt(a) for a in rng[0].args] == ["start[0]", "end[0] + 1"]
@@ -286,4 +298,6 @@ def run(chk: Check):
     rule_z4(chk, ix)
     rule_u2(chk)
     rule_u3(chk, ix)
+    from .c08 import rule_l5
+    rule_l5(chk, ix)
     chk.units["functions"] = len(ix.funcs)
